@@ -329,6 +329,15 @@ class ImplicitComponent(Component):
                     with self._call_user_function('apply_linear', protect_outputs=True):
                         self._apply_linear_wrapper(self._inputs, self._outputs,
                                                    d_inputs, d_outputs, d_residuals, mode)
+
+                    if mode == 'rev':
+                        # a matrix-free component does not know which of its inputs are relevant to
+                        # the current seeds; whatever it accumulated into irrelevant inputs must not
+                        # be transferred into (skipped, never re-zeroed) irrelevant systems.
+                        is_relevant = self._relevance.is_relevant
+                        for name in d_inputs._names:
+                            if not is_relevant(name):
+                                d_inputs._abs_get_val(name)[:] = 0.0
                 finally:
                     d_inputs.read_only = d_outputs.read_only = d_residuals.read_only = False
 
